@@ -1,3 +1,5 @@
+import dataclasses
+
 from ceos_alos2.array import Array
 from ceos_alos2.decoders import decode_filename
 from ceos_alos2.hierarchy import Variable
@@ -15,16 +17,27 @@ def filename_to_groupname(path):
     return "_".join([_ for _ in parts if _])
 
 
-def open_image(mapper, path, *, use_cache=True, create_cache=False, records_per_chunk=None):
-    if use_cache:
-        try:
-            return caching.read_cache(mapper, path, records_per_chunk=records_per_chunk)
-        except CachingError:
-            pass
+def with_filesystem(group, fs):
+    # the cache only records the bare root path of the product: read the image through the filesystem of this call
+    for name, var in group.variables.items():
+        if isinstance(var.data, Array):
+            group[name] = Variable(var.dims, dataclasses.replace(var.data, fs=fs), var.attrs)
 
+    return group
+
+
+def open_image(mapper, path, *, use_cache=True, create_cache=False, records_per_chunk=None):
     from fsspec.implementations.dirfs import DirFileSystem
 
     fs = DirFileSystem(path=mapper.root, fs=mapper.fs)
+
+    if use_cache:
+        try:
+            group = caching.read_cache(mapper, path, records_per_chunk=records_per_chunk)
+
+            return with_filesystem(group, fs)
+        except CachingError:
+            pass
 
     with fs.open(path, mode="rb") as f:
         header, metadata = read_metadata(f, records_per_chunk)
